@@ -494,6 +494,8 @@ func (fr *Frame) havocTarget(t modTarget) {
 		fr.store(Val{Ptr: t.ptr}, t.typ, v.T, token.NoPos, false)
 	case "elems":
 		elemHavocInners(fr.cur, elemKey(t.elem), sortOf(t.elem), DataField_(t.sl, 0), "modelems")
+	case "map":
+		fr.havocMap(t.typ.Underlying().(*types.Map), t.sl)
 	case "obj":
 		u, ok := t.typ.Underlying().(*types.Struct)
 		if !ok {
@@ -683,6 +685,16 @@ func (fr *Frame) specHelper(name string, fn *ssa.Function, args []Val, pos token
 			return v, true
 		}
 		unsupported("old() in a loop invariant could not be bound")
+	case "vcMapHas":
+		mt := fn.Params[0].Type().Underlying().(*types.Map)
+		return Val{T: And(Not(Eq(args[0].T, BVLit(0, 64))), fr.mapHas(mt, args[0].T, args[1].T))}, true
+	case "vcHeld":
+		mt := fnParamElem(args[0])
+		if mt == nil {
+			unsupported("vcHeld on a mutex that is not addressed through a field")
+		}
+		cur := fr.load(args[0], mt, pos, false).T
+		return Val{T: Not(Eq(cur, zeroOfSort(cur.S)))}, true
 	case "vcSame":
 		a, b := args[0].term(), args[1].term()
 		if a == nil || b == nil {
@@ -745,6 +757,11 @@ func (fr *Frame) specHelper(name string, fn *ssa.Function, args []Val, pos token
 			*c.modSink = append(*c.modSink, modTarget{kind: "elems", sl: args[0].T, elem: fn.Params[0].Type().Underlying().(*types.Slice).Elem()})
 		}
 		return Val{}, true
+	case "vcModMap":
+		if c.modSink != nil {
+			*c.modSink = append(*c.modSink, modTarget{kind: "map", sl: args[0].T, typ: fn.Params[0].Type()})
+		}
+		return Val{}, true
 	case "vcModObj":
 		if c.modSink != nil {
 			et := fn.Params[0].Type().Underlying().(*types.Pointer).Elem()
@@ -792,8 +809,7 @@ func (fr *Frame) builtin(b *ssa.Builtin, cc *ssa.CallCommon, args []Val, pos tok
 		case *types.Pointer:
 			return Val{T: BVLit(uint64(tt.Elem().Underlying().(*types.Array).Len()), 64)}
 		case *types.Map:
-			r := UFApp("maplen", SInt, args[0].T)
-			return Val{T: r}
+			return Val{T: Ite(Eq(args[0].T, BVLit(0, 64)), BVLit(0, 64), fr.mapLen(tt, args[0].T))}
 		}
 		unsupported("len of %s", t)
 	case "append":
@@ -826,7 +842,8 @@ func (fr *Frame) builtin(b *ssa.Builtin, cc *ssa.CallCommon, args []Val, pos tok
 	case "print", "println":
 		return Val{}
 	case "delete":
-		c.note("map delete ignored")
+		mt := cc.Args[0].Type().Underlying().(*types.Map)
+		fr.mapDelete(mt, args[0].T, args[1].T)
 		return Val{}
 	case "ssa:wrapnilchk":
 		return args[0]
